@@ -377,4 +377,28 @@ def selectPartitioner (name : Option (List UInt8)) : PartitionerName :=
   | none => .murmur3
   | some s => (partitionerFromStr s).getD .murmur3
 
+/-! ### which partitioner a prepared statement gets (`Session::prepare`, `session.rs:1706-1729`) -/
+
+/-- `cluster_state.keyspaces[ks].tables[t].partitioner`: the metadata snapshot the session holds when the statement
+is prepared. Keyspace name ↦ (table name ↦ `Table::partitioner : Option<String>`), names as UTF-8 bytes. -/
+abbrev SchemaSnapshot := List (List UInt8 × List (List UInt8 × Option (List UInt8)))
+
+/-- `Session::extract_partitioner_name` (1717-1729): `get_table_spec()?` (the table of the first bind marker, `None`
+for a statement without bind markers), `keyspaces.get(ks)?`, `tables.get(table)?`, `.partitioner.as_deref()`. -/
+def extractPartitionerName (tableSpec : Option (List UInt8 × List UInt8)) (schema : SchemaSnapshot) :
+    Option (List UInt8) :=
+  match tableSpec with
+  | none => none
+  | some (ks, table) =>
+    match schema.lookup ks with
+    | none => none
+    | some tables =>
+      match tables.lookup table with
+      | none => none
+      | some partitioner => partitioner
+
+/-- `prepared.set_partitioner_name(extract_partitioner_name(..).and_then(from_str).unwrap_or_default())`. -/
+def preparedPartitioner (tableSpec : Option (List UInt8 × List UInt8)) (schema : SchemaSnapshot) : PartitionerName :=
+  selectPartitioner (extractPartitionerName tableSpec schema)
+
 end ScyllaVerif.Murmur3
